@@ -195,8 +195,12 @@ def copies(idx, rep, rid):
     for src in ("cache", "count"):
         itc = Interp(idx, types={"self": "FileCacher"}, unknown_calls="residual", inline_all={"FileCacher"},
                      handlers={"CACHED_LM.copy": lambda i, c, r, a, k: Obj("COPY"), "copy.copy": lambda i, c, r, a, k: Obj("COPY"), "copy.deepcopy": lambda i, c, r, a, k: Obj("COPY"),
-                               "self._cached_lines_and_headers": lambda i, c, r, a, k, src=src: (cached, ["a", "b"]) if src == "cache" else (None, None),
-                               "self._cache_lines_and_headers": lambda i, c, r, a, k: None,
+                               # the boundary is the Cache object and the LineMonitor/LineCounter classes; the cacher's own private helpers are followed
+                               "LineMonitor": lambda i, c, r, a, k: cached, "CACHED_LM.load": lambda i, c, r, a, k: None, "CACHED_LM.dump": lambda i, c, r, a, k: "{}",
+                               "self.cache.cached_text": lambda i, c, r, a, k, src=src: None if src == "count" else ("{}" if a[1] == "json" else ["a", "b"]),
+                               "self.cache.cache_text": lambda i, c, r, a, k: None,
+                               "io.StringIO": lambda i, c, r, a, k: Obj("buf"), "csv.writer": lambda i, c, r, a, k: Obj("w"), "w.writerow": lambda i, c, r, a, k: None,
+                               "buf.getvalue": lambda i, c, r, a, k: "a,b",
                                "LineCounter": lambda i, c, r, a, k: Obj("lc"), "lc.get_lines_and_headers": lambda i, c, r, a, k: (cached, ["a", "b"])})
         pc = itc.run_all(fm, args={"filename": "f"}, store={"self.pathed_lines_and_headers": {}})
         okc = len(pc) == 1 and pc[0].result == ("return", Obj("COPY")) and pc[0].final_store.get("self.pathed_lines_and_headers", {}).get("f", (None,))[0] == cached
